@@ -139,7 +139,8 @@ Definition model_document (resub : str -> str -> str)
            (pathspec_match : list str -> str -> list str -> bool -> bool) (world_of : str -> pyworld)
            (input : str) (obj : py_settings_obj) : list action :=
   Walk.document (wsettings_of obj) (headers_of obj) (docfn_of resub obj)
-    (excl_with_output (excl_of pathspec_match obj input) (pw_out_in_input (world_of input)))
+    (excl_with_output_links (excl_of pathspec_match obj input) (pw_out_in_input (world_of input))
+                            (follow_of obj) (pw_links (world_of input)))
     (pw_base (world_of input)) (pw_kind (world_of input)).
 
 (* --- the settings object main() builds, the inputs it loops over, the exception it raises --- *)
@@ -244,7 +245,7 @@ Lemma source_document_is_model : forall resub pathspec_match world_of input obj,
 Proof.
   intros resub psm world_of input obj Hok. unfold source_document, model_document.
   unfold world_ok in Hok. apply andb_true_iff in Hok. destruct Hok as [Hk Ho].
-  destruct (world_of input) as [base kind o]. cbn [pw_base pw_kind pw_out_in_input] in *.
+  destruct (world_of input) as [base kind o links]. cbn [pw_base pw_kind pw_out_in_input pw_links] in *.
   apply document_matches_source; assumption.
 Qed.
 
@@ -278,10 +279,12 @@ Proof.
   apply model_main_cases.
 Qed.
 
-(* the output directory is nowhere inside an input: the statement with the exclusion patterns alone *)
+(* the output directory is nowhere inside an input and no input contains a symbolic link: the
+   statement with the exclusion patterns alone *)
 Theorem whole_program_output_outside : forall resub pathspec_match world_of env toks,
   (forall input, In input (inputs_of toks) ->
-     kind_distinct (pw_kind (world_of input)) = true /\ pw_out_in_input (world_of input) = None) ->
+     kind_distinct (pw_kind (world_of input)) = true /\ pw_out_in_input (world_of input) = None
+     /\ (forall rel, pw_links (world_of input) rel = false)) ->
   py_run (main env (source_document resub pathspec_match world_of) toks)
   = model_main env (fun input obj =>
        Walk.document (wsettings_of obj) (headers_of obj) (docfn_of resub obj)
@@ -289,10 +292,14 @@ Theorem whole_program_output_outside : forall resub pathspec_match world_of env 
                      (pw_base (world_of input)) (pw_kind (world_of input))) toks.
 Proof.
   intros resub psm world_of env toks Hw. rewrite main_matches_source.
-  apply model_main_ext. intros obj f Hobj Hf. destruct (Hw f Hf) as [Hk Ho].
-  unfold source_document. destruct (world_of f) as [base kind o].
-  cbn [pw_base pw_kind pw_out_in_input] in *. subst o.
-  apply document_matches_source_output_outside. exact Hk.
+  apply model_main_ext. intros obj f Hobj Hf. destruct (Hw f Hf) as [Hk [Ho Hl]].
+  unfold source_document. destruct (world_of f) as [base kind o links].
+  cbn [pw_base pw_kind pw_out_in_input pw_links] in *. subst o.
+  apply document_source_gen.
+  - reflexivity.
+  - reflexivity.
+  - intros rel d. unfold dir_pruned. cbn [is_output_dir]. rewrite Hl, !andb_false_r, !orb_false_r. reflexivity.
+  - exact Hk.
 Qed.
 
 (* ------------------------------------------------------------------ *)
@@ -459,7 +466,8 @@ Theorem settings_reach_every_layer : forall resub pathspec_match world_of env to
         (document_bytes (flags_of obj) (trigger_of obj)
                         (resub (opt_text obj k_strip_fn)) (resub (opt_text obj k_strip_mac))
                         (resub (opt_text obj k_strip_mem)) (headers_of obj))
-        (excl_with_output (pathspec_match (patterns_of obj) input) (pw_out_in_input (world_of input)))
+        (excl_with_output_links (pathspec_match (patterns_of obj) input) (pw_out_in_input (world_of input))
+                                (follow_of obj) (pw_links (world_of input)))
         (pw_base (world_of input)) (pw_kind (world_of input))) (p_positional p)))
   /\ ws_prefix (wsettings_of obj) = found_opt_str (resolve stack k_prefix)
   /\ ws_recursive (wsettings_of obj) = found_bool (resolve stack k_recursive)
@@ -561,7 +569,8 @@ Theorem inputs_share_settings : forall resub pathspec_match world_of env toks ob
   py_run (main env (source_document resub pathspec_match world_of) toks)
   = finish (run_inputs (map (fun input =>
       Walk.document W H D
-        (excl_with_output (pathspec_match PATS input) (pw_out_in_input (world_of input)))
+        (excl_with_output_links (pathspec_match PATS input) (pw_out_in_input (world_of input))
+                                (follow_of obj) (pw_links (world_of input)))
         (pw_base (world_of input)) (pw_kind (world_of input))) (inputs_of toks))).
 Proof.
   intros resub psm world_of env toks obj Hm Hw. cbv zeta.
@@ -640,7 +649,8 @@ Theorem prefix_default_does_not_leak : forall resub pathspec_match world_of env 
   = finish (run_inputs (map (fun input =>
       Walk.document (with_prefix (wsettings_of obj) (Some (pw_base (world_of input))))
         (headers_of obj) (docfn_of resub obj)
-        (excl_with_output (excl_of pathspec_match obj input) (pw_out_in_input (world_of input)))
+        (excl_with_output_links (excl_of pathspec_match obj input) (pw_out_in_input (world_of input))
+                                (follow_of obj) (pw_links (world_of input)))
         (pw_base (world_of input)) (pw_kind (world_of input))) (inputs_of toks))).
 Proof.
   intros resub psm world_of env toks obj Hm Hw Hnone Hdirs.
@@ -731,10 +741,10 @@ Module WholeExamples.
      D (s"docs") [F (s"old.cmake") src_l]].
   (* what lies at the inputs; out = where the output directory is inside proj, if it is *)
   Definition ex_world (out : option (list str)) (input : str) : pyworld :=
-    if str_eqb input (s"proj") then PyWorld (s"proj") (KDir proj_tree) out
-    else if str_eqb input (s"lib") then PyWorld (s"lib") (KDir [F (s"l.cmake") src_l]) None
-    else if str_eqb input (s"one.cmake") then PyWorld (s"one.cmake") (KFile src_l) None
-    else PyWorld input KMissing None.
+    if str_eqb input (s"proj") then PyWorld (s"proj") (KDir proj_tree) out (fun _ => false)
+    else if str_eqb input (s"lib") then PyWorld (s"lib") (KDir [F (s"l.cmake") src_l]) None (fun _ => false)
+    else if str_eqb input (s"one.cmake") then PyWorld (s"one.cmake") (KFile src_l) None (fun _ => false)
+    else PyWorld input KMissing None (fun _ => false).
 
   (* a toy pathspec: a pattern x* matches a last path element starting with x, any other pattern must
      equal it; a toy regex engine: the pattern is a literal prefix to remove *)
